@@ -2,6 +2,7 @@ import AsynqModel.Lib.Asyncio
 import AsynqModel.Proofs.Asyncio
 import AsynqModel.Proofs.AsyncioSem
 import AsynqModel.Proofs.AsyncioLock
+import AsynqModel.Proofs.AsyncioStrict
 /-! helper lemmas for C15: `_gather` spelled out, shapes, and the observer `spec` on the model's own observations -/
 namespace AsynqModel.Asyncio
 open AsynqModel.Core (Val)
@@ -142,9 +143,9 @@ theorem bodyR_fin : ∀ (p : Prog) (gen : Bool) (t : Nat) (env : List Val) (caug
   | .sync c child k h, gen, t, env, caught, i, s, hm, hc => by
     unfold bodyR
     simp only [hm, Bool.false_eq_true, if_false]
-    have hf := (bodyR_good child c.kind.isGen c.label [] none 0 (s.emit (.start c.label false)) (by simp [hm]) (by simp)).1
-    have h2 := bodyR_mode child c.kind.isGen c.label [] none 0 (s.emit (.start c.label false))
-    rcases hR : bodyR c.kind.isGen c.label [] none 0 child (s.emit (.start c.label false)) with ⟨r, s1⟩
+    have hf := (bodyR_good child c.kind.isGen c.label [] none 0 (syncStart c s) (by simp [hm]) (by simp)).1
+    have h2 := bodyR_mode child c.kind.isGen c.label [] none 0 (syncStart c s)
+    rcases hR : bodyR c.kind.isGen c.label [] none 0 child (syncStart c s) with ⟨r, s1⟩
     rw [hR] at hf h2
     simp only at hf h2
     have hm1 : s1.mode = false := by rw [h2]; simp [hm]
@@ -189,8 +190,8 @@ theorem bodyA_fin : ∀ (p : Prog) (gen : Bool) (t : Nat) (env : List Val) (caug
       | esc v => simp [Out.noEsc] at hf
   | .sync c child k h, gen, t, env, caught, i, s, hm => by
     have hA : bodyA gen t env caught i (.sync c child k h) s =
-        bodyA gen t env (some .syncRefused) i h (s.emit (.syncX t (.err .syncRefused))) := by
-      simp [bodyA, hm, Err.isBase]
+        bodyA gen t env (some (refusal c)) i h (s.emit (.syncX t (.err (refusal c)))) := by
+      simp [bodyA, hm]
     rw [hA]
     exact bodyA_fin h _ _ _ _ _ _ (by simp [hm])
 
@@ -247,13 +248,14 @@ theorem specObs_ok_R (ref : Out) (refP : List PEv) (ob : Obs) (hc : ob.conv.isAi
 
 theorem specObs_ok_A (ref : Out) (refP : List PEv) (ob : Obs) (hc : ob.conv.isAio = true) (hb : ob.before = false)
     (ha : ob.after = false) (hcan : canaryOk ob.canary = true) (hlog : ob.log.all evOkA = true)
+    (hstrict : ob.log.all syncRefusedOk = true)
     (hesc : isEsc ob.out = false) (hroot : rootOk ob = true)
     (hout : ob.log.any isSyncX = false → ob.out = ref ∧ proj ob.log = refP) :
     specObs ref (canonP refP) ob = .ok () := by
   have h1 : ob.log.all noBad = true := all_imp hlog (by intro e he; simp [evOkA] at he; exact he.2)
   have h2 : ob.log.all (modeSeen true) = true := all_imp hlog (by intro e he; simp [evOkA] at he; exact he.1.1.2)
   have h3 : ob.log.all dcOk = true := all_imp hlog (by intro e he; simp [evOkA] at he; exact he.1.1.1)
-  have h4 : ob.log.all syncRefusedOk = true := all_imp hlog (by intro e he; simp [evOkA] at he; exact he.1.2)
+  have h4 : ob.log.all syncRefusedOk = true := hstrict
   cases hs : ob.log.any isSyncX
   · obtain ⟨ho, hp⟩ := hout hs
     subst ho
@@ -286,6 +288,15 @@ theorem topA_good (c : Call) (p : Prog) :
   rw [topA_eq]
   refine ⟨rfl, ?_⟩
   have := ((callPre_ext c {}).trans hg).all rfl
+  simpa using this
+
+/-- every synchronous call attempted by an asyncio run is refused with the RuntimeError - for programs that make no plain
+    synchronous call of a @deduplicate() function -/
+theorem topA_strict (c : Call) (p : Prog) (hg : p.noDedupSync = true) :
+    (topA c p {}).2.log.all syncRefusedOk = true := by
+  have hx := bodyA_strict p c.kind.isGen c.label [] none 0 (callPre c {}) (by simp) hg
+  rw [topA_eq]
+  have := ((callPre_strict c {}).trans hx).all rfl
   simpa using this
 
 theorem topA_noEsc (c : Call) (p : Prog) : isEsc (topA c p {}).1 = false := by
@@ -378,7 +389,9 @@ theorem spec_intro (o1 o2 o3 o4 o5 : Obs) (c1 : o1.conv = .call) (c2 : o2.conv =
     `fn.asynq(args).value()`, `await fn.asyncio(args)`, `asyncio.run(fn.asyncio(args))`, as a task beside a watcher - are
     accepted by the observer `spec`, the same Boolean function the check evaluates on the observations of the real
     implementation -/
-theorem spec_holds (c : Call) (p : Prog) (hp : p.plainY = true) (hx : p.safe = true) : spec (observe c p) = true := by
+theorem spec_holds (c : Call) (p : Prog) (hp : p.plainY = true) (hx : p.safe = true) (hg : p.noDedupSync = true) :
+    spec (observe c p) = true := by
+  have hAs := topA_strict c p hg
   obtain ⟨hRm, hRl⟩ := topCall_good c p
   obtain ⟨hAm, hAl⟩ := topA_good c p
   obtain ⟨hd1, _⟩ := top_deliveries c p hp hx
@@ -399,11 +412,11 @@ theorem spec_holds (c : Call) (p : Prog) (hp : p.plainY = true) (hx : p.safe = t
       (topCall_root c p _ (by rw [show (observe1 .value c p).log = (topValue c p {}).2.log.reverse from rfl, hv])
         (by rw [show (observe1 .value c p).out = (topValue c p {}).1 from rfl, hv]))
   have e3 : specObs (topCall c p {}).1 (canonP (proj (topCall c p {}).2.log.reverse)) (observe1 .aio c p) = .ok () :=
-    specObs_ok_A _ _ _ rfl rfl hAm (canary_off _ hAm) (by simpa [observe1] using hAl) hAe (topA_root c p _ rfl rfl) hd1
+    specObs_ok_A _ _ _ rfl rfl hAm (canary_off _ hAm) (by simpa [observe1] using hAl) (by simpa [observe1] using hAs) hAe (topA_root c p _ rfl rfl) hd1
   have e4 : specObs (topCall c p {}).1 (canonP (proj (topCall c p {}).2.log.reverse)) (observe1 .aiorun c p) = .ok () :=
-    specObs_ok_A _ _ _ rfl rfl rfl (canary_off _ rfl) (by simpa [observe1] using hAl) hAe (topA_root c p _ rfl rfl) hd1
+    specObs_ok_A _ _ _ rfl rfl rfl (canary_off _ rfl) (by simpa [observe1] using hAl) (by simpa [observe1] using hAs) hAe (topA_root c p _ rfl rfl) hd1
   have e5 : specObs (topCall c p {}).1 (canonP (proj (topCall c p {}).2.log.reverse)) (observe1 .aiotask c p) = .ok () :=
-    specObs_ok_A _ _ _ rfl rfl rfl (canary_off _ rfl) (by simpa [observe1] using hAl) hAe (topA_root c p _ rfl rfl) hd1
+    specObs_ok_A _ _ _ rfl rfl rfl (canary_off _ rfl) (by simpa [observe1] using hAl) (by simpa [observe1] using hAs) hAe (topA_root c p _ rfl rfl) hd1
   exact spec_intro (observe1 .call c p) (observe1 .value c p) (observe1 .aio c p) (observe1 .aiorun c p)
     (observe1 .aiotask c p) rfl rfl rfl rfl rfl e1 e2 e3 e4 e5
 
